@@ -79,6 +79,16 @@ Theorem C03_output_template : forall w oracle st0, kk st0 = [] -> kcalls st0 = [
   (ex = false -> forall r, must_keep live r = true -> kr st' r = kr st0 r).
 Proof. exact call_ok_out. Qed.
 
+(** conditional branches: the accepted code compares the condition cell with zero at the cell
+    width, changes nothing but the flags and jumps iff the cell is zero ([BrZ]) / non-zero ([BrNZ]);
+    that the jump lands on the code of instruction pc+off is checked on the relocated code *)
+Theorem C03_branch_template : forall w oracle i code st, br_ok i code = true ->
+  fst (krun w oracle code st) = {| kr := kr st; kc := kc st; kk := kk st; kcalls := kcalls st;
+                                    kzf := match i with BrZ c _ | BrNZ c _ => (kc st c =? 0) | _ => kzf st end |} /\
+  snd (krun w oracle code st) =
+    match i with BrZ c _ => (kc st c =? 0) | BrNZ c _ => negb (kc st c =? 0) | _ => false end.
+Proof. exact br_ok_sound. Qed.
+
 (** the template the JIT emits for  Inp(-1)  with temporaries 4, 5, 6 live (three pushes and the
     alignment word) is accepted; without the alignment word, or jumping before the pops, it is not *)
 Example C03_call_nonvacuous :
@@ -102,3 +112,4 @@ Proof. vm_compute. repeat split; reflexivity. Qed.
 Print Assumptions C03_form_sound.
 Print Assumptions C03_input_template.
 Print Assumptions C03_output_template.
+Print Assumptions C03_branch_template.
